@@ -66,6 +66,35 @@ def seed_corpus(chk, root):
         gfiles.append((1, open(os.path.join(d, "tab_pdf.data"), "rb").read()))
         gfiles.append((0, open(os.path.join(d, "tab_ocdf.data"), "rb").read()))
     k = 0
+    # structure-preserving degenerate tables: right header, right row lengths, but the values all zero / one positive corner node /
+    # denormal / equal (the generic mutators practically never produce these)
+    for sel, t in list(gfiles):
+        if sel != 1:
+            continue
+        lines = t.split(b"\n")
+        hdr = next((i for i, l in enumerate(lines) if l.startswith(b"Probability")), None)
+        if hdr is None:
+            continue
+        for variant in range(4):
+            ls = list(lines)
+            first = True
+            for i in range(hdr + 1, len(ls)):
+                toks = ls[i].split()
+                if not toks or ls[i].lstrip().startswith(b"#"):
+                    continue
+                if variant == 0:
+                    new = [b"0.0"] * len(toks)
+                elif variant == 1:
+                    new = [b"0.0"] * len(toks)
+                    if first:
+                        new[0] = b"1.0"
+                elif variant == 2:
+                    new = [b"4.9e-324"] * len(toks)
+                else:
+                    new = [b"1.0"] * len(toks)
+                first = False
+                ls[i] = b" ".join(new)
+            gfiles.append((1, b"\n".join(ls)))
     for sel, t in gfiles:
         open(os.path.join(corp["fz_ga"], "s%03d" % k), "wb").write(bytes([sel]) + t)
         k += 1
